@@ -329,4 +329,17 @@ def encAStmtT : Amp.AStmtT → Sexp
   | .output s => .list [.atom "output", .atom s]
   | .nEvents n => .list [.atom "nevents", .atom n]
 
+def decAStmtT : Sexp → Option Amp.AStmtT
+  | .list [.atom "event_type", ns] => ns.asStrs.map .eventType
+  | .list [.atom "constant", .atom n, .atom v] => some (.constant n v)
+  | .list [.atom "variable", .atom n, .atom f, .atom v, .atom e] => some (.variable n f v e)
+  | .list [.atom "line", d, .atom f1, .atom v1, .atom e1, .atom f2, .atom v2, .atom e2] =>
+    (decADecay d).map fun d => .line d f1 v1 e1 f2 v2 e2
+  | .list [.atom "cart_line"] => some .cartLine
+  | .list [.atom "invert_line"] => some .invertLine
+  | .list [.atom "fcs", .atom n] => some (.fastCoherentSum n)
+  | .list [.atom "output", .atom s] => some (.output s)
+  | .list [.atom "nevents", .atom n] => some (.nEvents n)
+  | _ => none
+
 end DL
